@@ -324,6 +324,10 @@ func subWriter() mon.Sub {
 			if c.Rng.Intn(3) == 0 {
 				dst = xport.RichDst{Rec: rec} // a destination with ReadFrom / WriteString of its own
 			}
+			// the destination looks at the caller's slice WHILE the write is in progress (another goroutine
+			// broadcasting the same payload would): it holds what the caller put there at every moment
+			wd := &duringW{w: dst}
+			dst = wd
 			w := wsutil.NewCipherWriter(dst, key)
 			pos := 0
 			var accepted []byte
@@ -349,7 +353,13 @@ func subWriter() mon.Sub {
 				}
 				for len(p) > 0 || k == 0 {
 					keep := append([]byte(nil), p...)
+					wd.p, wd.want = p, keep
 					m, err := w.Write(p)
+					wd.p = nil
+					if wd.bad {
+						c.Fail("writer/mutates-caller-during-write", "the caller's slice did not hold the caller's bytes while CipherWriter.Write was handing data to the destination", map[string]interface{}{"len": n, "parts": parts})
+						return
+					}
 					if !bytes.Equal(p, keep) {
 						c.Fail("writer/mutates-caller", "CipherWriter.Write modified the caller's slice", map[string]interface{}{"len": n, "parts": parts})
 						return
@@ -469,6 +479,20 @@ func cutRandom(c *mon.C, p []byte) [][]byte {
 		p = p[k:]
 	}
 	return out
+}
+
+// duringW checks the caller's slice from inside the destination's Write.
+type duringW struct {
+	w       io.Writer
+	p, want []byte
+	bad     bool
+}
+
+func (d *duringW) Write(b []byte) (int, error) {
+	if d.p != nil && !bytes.Equal(d.p, d.want) {
+		d.bad = true
+	}
+	return d.w.Write(b)
 }
 
 func sameBacking(a, b []byte) bool {
